@@ -255,6 +255,20 @@ fn scan_names(src: &str, data: &[u8]) -> Result<Vec<String>, String> {
         Ok(v)
     })).unwrap_or_else(|p| Err(format!("panic: {}", p)))
 }
+/// Floats are outside the model; one pair is pinned here: addition is commutative, so a
+/// parenthesised integer sum must contribute the same value on either side of a float.  Returns
+/// a finding (JSON) when the two verdicts differ.
+fn float_probe() -> Option<String> {
+    let src = "rule sum_on_the_left { condition: (filesize + 9223372036854775807) + 0.5 > 0 }\nrule sum_on_the_right { condition: 0.5 + (filesize + 9223372036854775807) > 0 }\n";
+    let data = b"a";
+    match scan_names(src, data) {
+        Ok(v) if v.contains(&"sum_on_the_left".to_string()) != v.contains(&"sum_on_the_right".to_string()) =>
+            Some(format!("{{\"fingerprint\":\"C02:mixed-int-float-chain-ignores-grouping\",\"source\":{},\"data_hex\":\"{}\",\"matching\":{:?},\"expected\":\"both rules or neither: the two conditions add the same two values\"}}",
+                         json_str(src), hex(data), v)),
+        Ok(_) => None,
+        Err(e) => Some(format!("{{\"fingerprint\":\"C02:float-probe-failed\",\"error\":{}}}", json_str(&e))),
+    }
+}
 /// conditions outside the modelled language whose verdict is known by construction (the
 /// test_proto2 module fills its maps with fixed values whatever the data): a `for k, v in <map>`
 /// loop must not depend on what an earlier `with` left in the slots its variables reuse
@@ -327,7 +341,67 @@ fn corpus() -> Vec<Case> {
         r(0, false, false, vec![], E::With(vec![(0, undef()), (1, E::Arith(Op::Add, bx(E::Filesize), bx(E::Int(2))))], bx(E::Or(bx(E::Cmp(Cmp::Eq, bx(E::Var(1)), bx(E::Int(5)))), bx(E::Cmp(Cmp::Eq, bx(E::Var(0)), bx(E::Int(1)))))))),
         r(0, false, false, vec![], E::With(vec![(0, E::Arith(Op::Add, bx(E::Filesize), bx(E::Int(2)))), (1, undef())], bx(E::Or(bx(E::Cmp(Cmp::Eq, bx(E::Var(0)), bx(E::Int(5)))), bx(E::Cmp(Cmp::Eq, bx(E::Var(1)), bx(E::Int(1)))))))),
     ];
-    vec![
+    // every folding builder of ir/mod.rs with operands at the sign / width boundaries, both
+    // operands constant (folded by the compiler) and the left one manufactured at run time (the
+    // emitted code): each rule states the value 64-bit arithmetic gives (arith_i64 above)
+    let mut fold_cases: Vec<Vec<RuleSpec>> = vec![];
+    {
+        let data_len = 3i64;
+        let rt = |c: i64| -> E {
+            let base = E::Arith(Op::Sub, bx(E::Filesize), bx(E::Int(data_len)));
+            if c == 0 { base } else if c == i64::MIN { E::Arith(Op::Sub, bx(E::Arith(Op::Sub, bx(base), bx(E::Int(i64::MAX)))), bx(E::Int(1))) }
+            else if c > 0 { E::Arith(Op::Add, bx(base), bx(E::Int(c))) } else { E::Arith(Op::Sub, bx(base), bx(E::Int(-c))) }
+        };
+        // a constant the compiler folds to c (i64::MIN has no literal)
+        let k = |c: i64| -> E { if c == i64::MIN { E::Arith(Op::Sub, bx(E::Int(-i64::MAX)), bx(E::Int(1))) } else { E::Int(c) } };
+        let lefts = [0i64, 1, -1, -8, 255, i64::MAX, i64::MIN];
+        let mut rules = vec![];
+        for op in [Op::Add, Op::Sub, Op::Mul, Op::Shl, Op::Shr, Op::BAnd, Op::BOr, Op::BXor] {
+            let rights: Vec<i64> = if matches!(op, Op::Shl | Op::Shr) { vec![0, 1, 31, 63, 64, 65, 128] } else { vec![0, 1, -1, 2, i64::MAX, i64::MIN] };
+            for a in lefts {
+                for &b in &rights {
+                    let expected = arith_i64(op, a, b).unwrap();
+                    let overflows = match op { Op::Add => a.checked_add(b).is_none(), Op::Sub => a.checked_sub(b).is_none(), Op::Mul => a.checked_mul(b).is_none(), _ => false };
+                    // constant operands (a constant chain that overflows is a compile error)
+                    if !overflows { rules.push(r(0, false, false, vec![], E::Cmp(Cmp::Eq, bx(E::Arith(op, bx(k(a)), bx(k(b)))), bx(rt(expected))))); }
+                    // the same computed by the emitted code
+                    if overflows || a.wrapping_add(b).rem_euclid(3) == 0 { rules.push(r(0, false, false, vec![], E::Cmp(Cmp::Eq, bx(E::Arith(op, bx(rt(a)), bx(k(b)))), bx(rt(expected))))); }
+                }
+            }
+        }
+        for a in lefts {
+            if a != i64::MIN { rules.push(r(0, false, false, vec![], E::Cmp(Cmp::Eq, bx(E::Neg(bx(k(a)))), bx(rt(a.wrapping_neg()))))); }
+            rules.push(r(0, false, false, vec![], E::Cmp(Cmp::Eq, bx(E::BitNot(bx(k(a)))), bx(rt(!a)))));
+            rules.push(r(0, false, false, vec![], E::Cmp(Cmp::Eq, bx(E::Neg(bx(rt(a)))), bx(rt(a.wrapping_neg())))));
+        }
+        for chunk in rules.chunks(40) { fold_cases.push(chunk.to_vec()); }
+    }
+    // every string operator on operands that are not ASCII, known only at scan time (external
+    // variables defined with other values at compile time): case pairs as prefix / suffix / infix /
+    // equal / near miss, the sigmas, U+0130, invalid UTF-8
+    let mut string_cases: Vec<Case> = vec![];
+    {
+        let ops = [SOp::Contains, SOp::IContains, SOp::StartsWith, SOp::IStartsWith, SOp::EndsWith, SOp::IEndsWith, SOp::IEquals];
+        let pairs: [(&[u8], &[u8]); 8] = [
+            (b"CAF\xc3\x89", b"f\xc3\xa9"), (b"\xc3\xa9a", b"\xc3\x89"), (b"xCaf\xc3\x89x", b"AF\xc3\xa9"), (b"\xce\xa3\xce\x91\xce\xa3", b"\xcf\x83\xce\xb1\xcf\x82"),
+            (b"\xc4\xb0x", b"i\xcc\x87X"), (b"\xc3A\xc3\x89", b"a\xc3\xa9"), (b"caf\xc3\xa9", b"CAF\xc3\x89"), (b"Hello \xc3\x89", b"hello"),
+        ];
+        for (a, b) in pairs {
+            let mut rules = vec![];
+            for op in ops {
+                rules.push(r(0, false, false, vec![], E::StrOp(op, bx(E::Global(4)), bx(E::Global(5)))));
+                rules.push(r(0, false, false, vec![], E::StrOp(op, bx(E::Global(5)), bx(E::Global(4)))));
+                rules.push(r(0, false, false, vec![], E::StrOp(op, bx(E::Global(4)), bx(E::Str(b.to_vec())))));
+                rules.push(r(0, false, false, vec![], E::StrOp(op, bx(E::Str(a.to_vec())), bx(E::Global(5)))));
+            }
+            for c in [Cmp::Eq, Cmp::Ne, Cmp::Lt, Cmp::Ge] { rules.push(r(0, false, false, vec![], E::Cmp(c, bx(E::Global(4)), bx(E::Global(5))))); }
+            let scan = vec![GV::I(7), GV::I(-1), GV::B(true), GV::B(false), GV::S(a.to_vec()), GV::S(b.to_vec())];
+            string_cases.push(Case { rules, data: b"abc".to_vec(), globals: scan, compile_globals: g0.clone(), per_rule: true, stream: Stream::Main });
+        }
+    }
+    let mut out: Vec<Case> = fold_cases.into_iter().map(|c| mk(c, b"abc", Stream::Fold)).collect();
+    out.extend(string_cases);
+    out.extend(vec![
         mk(pct_rules, &pct_data, Stream::Main),
         mk(tuple_rules, b"abc", Stream::Main),
         mk(shift_rules, b"abc", Stream::Main),
@@ -347,7 +421,8 @@ fn corpus() -> Vec<Case> {
         mk(vec![r(0, false, false, vec![b"abc"], E::Or(bx(E::Cmp(Cmp::Eq, bx(undef()), bx(E::Int(1)))), bx(E::Pat(P::Id(0), A::None)))),
                 r(0, false, false, vec![], E::Not(bx(E::Cmp(Cmp::Eq, bx(undef()), bx(E::Int(1)))))),
                 r(0, false, false, vec![], E::Not(bx(E::Defined(bx(undef())))))], b"xxabc", Stream::Main),
-    ]
+    ]);
+    out
 }
 
 fn main() { let args: Vec<String> = std::env::args().skip(1).collect(); std::process::exit(run(&args)); }
@@ -357,7 +432,7 @@ fn replay(path: &str) -> i32 {
     let c = if d.get("case").is_some() { &d["case"] } else { &d };
     let src = c["source"].as_str().unwrap();
     let data = unhex(c["data_hex"].as_str().unwrap());
-    let gl = |k: &str| -> Vec<GV> { GLOBALS.iter().map(|(n, t)| { let v = &c[k][*n]; match t { T::Int => GV::I(v.as_i64().unwrap()), T::Bool => GV::B(v.as_bool().unwrap()), T::Str => GV::S(v.as_str().unwrap().as_bytes().to_vec()) } }).collect() };
+    let gl = |k: &str| -> Vec<GV> { GLOBALS.iter().map(|(n, t)| { let v = &c[k][*n]; match t { T::Int => GV::I(v.as_i64().unwrap()), T::Bool => GV::B(v.as_bool().unwrap()), T::Str => GV::S(gv_str(v)) } }).collect() };
     let mut sources: Vec<(String, String)> = vec![];
     for part in src.split("//NS ").skip(1) { let (ns, body) = part.split_once('\n').unwrap(); sources.push((ns.trim().to_string(), body.to_string())); }
     let out = run_impl(&sources, &gl("compile_globals"), &gl("globals"), &data);
@@ -484,8 +559,8 @@ pub fn run(args: &[String]) -> i32 {
     if shards.total < n { return 2; }
     let unexpected = expectation_probe();
     if !unexpected.is_empty() { for u in &unexpected { eprintln!("c02: {}", u); } return 2; }
-    // (probes that found something would be listed here; the `of`-tuple order pair is now a corpus case)
-    let findings: Vec<String> = vec![];
+    // probes outside the model that found something (the `of`-tuple order pair is now a corpus case)
+    let findings: Vec<String> = float_probe().into_iter().collect();
     println!("{{\"findings\":[{}],\"evaluations\":{},\"distinct_nontrivial\":{},\"shards\":{},\"distribution\":{},\"samples\":[{}],\"panic_samples\":{}}}",
         findings.join(","), shards.total, distinct.len(), shards.shard_count, stats.json(), samples.join(","), serde_json::to_string(&panics).unwrap());
     0
